@@ -674,33 +674,52 @@ func (f *Frame) analyzeLoops() {
 		}
 		f.loops[b] = li
 	}
-	// ordinals by source position of the header's first instruction position
+	// ordinals: source order of the loop statements. A loop's position is the smallest source position of a non-phi
+	// instruction anywhere in its body (phi positions are those of variable declarations, which may precede the loop);
+	// an enclosing loop sorts before the loops it contains.
 	var hs []*ssa.BasicBlock
-	for h := range f.loops {
+	pos := map[*ssa.BasicBlock]token.Pos{}
+	for h, li := range f.loops {
 		hs = append(hs, h)
+		pos[h] = loopPos(li)
 	}
-	sort.Slice(hs, func(i, j int) bool { return loopPos(hs[i]) < loopPos(hs[j]) })
+	sort.Slice(hs, func(i, j int) bool {
+		if pos[hs[i]] != pos[hs[j]] {
+			return pos[hs[i]] < pos[hs[j]]
+		}
+		if a, b := len(f.loops[hs[i]].body), len(f.loops[hs[j]].body); a != b {
+			return a > b
+		}
+		return hs[i].Index < hs[j].Index
+	})
 	for _, h := range hs {
 		ord++
 		f.loops[h].ordinal = ord
 	}
 }
 
-func loopPos(b *ssa.BasicBlock) token.Pos {
-	// smallest valid position among the loop header's instructions; fall back to block index
+func loopPos(li *loopInfo) token.Pos {
 	var best token.Pos
-	for _, ins := range b.Instrs {
-		if p := ins.Pos(); p.IsValid() && (best == 0 || p < best) {
-			best = p
-		}
-		if d, ok := ins.(*ssa.DebugRef); ok {
-			if p := d.Expr.Pos(); p.IsValid() && (best == 0 || p < best) {
+	for b := range li.body {
+		for _, ins := range b.Instrs {
+			if _, ok := ins.(*ssa.Phi); ok {
+				continue
+			}
+			if p := ins.Pos(); p.IsValid() && (best == 0 || p < best) {
 				best = p
+			}
+			if d, ok := ins.(*ssa.DebugRef); ok {
+				if _, isPhi := d.X.(*ssa.Phi); isPhi {
+					continue
+				}
+				if p := d.Expr.Pos(); p.IsValid() && (best == 0 || p < best) {
+					best = p
+				}
 			}
 		}
 	}
 	if best == 0 {
-		return token.Pos(1<<30 + b.Index)
+		return token.Pos(1<<30 + li.header.Index)
 	}
 	return best
 }
